@@ -22,6 +22,10 @@ type specEnv struct {
 	prev     Heap
 	prevVars map[string]Val
 	inPrev   bool
+	// loop clauses: entry values of the function's parameters (old(p) of a reassigned parameter)
+	entryVars map[string]Val
+	// non-nil when a callee's clause is evaluated at a call site: ghost counters of the callee are fresh unknowns
+	calleeGhost map[string]Term
 }
 
 func (x *Enc) newSpecEnv(ci *clauseInfo, vars map[string]Val, heap, old Heap) *specEnv {
@@ -85,10 +89,22 @@ func (env *specEnv) fail(e ast.Expr, why string) Val {
 }
 
 // evalAddr evaluates an addressable expression to (pointer, pointee type).
+type derefVar struct {
+	ptr Val
+	typ types.Type
+}
+
 func (x *Enc) evalAddr(env *specEnv, e ast.Expr) (Val, types.Type, bool) {
 	switch e := e.(type) {
 	case *ast.ParenExpr:
 		return x.evalAddr(env, e.X)
+	case *ast.Ident:
+		if _, shadowed := env.vars[e.Name]; !shadowed {
+			if d, ok := x.topDerefs[e.Name]; ok {
+				return d.ptr, d.typ, true
+			}
+		}
+		return Val{}, nil, false
 	case *ast.StarExpr:
 		return env.eval(e.X), env.typeOf(e), true
 	case *ast.SelectorExpr:
@@ -202,8 +218,17 @@ func (env *specEnv) eval(e ast.Expr) Val {
 		case "false":
 			return Val{ts: []Term{"false"}}
 		}
+		if env.inOld && env.entryVars != nil {
+			if v, ok := env.entryVars[e.Name]; ok {
+				return v
+			}
+		}
 		if v, ok := env.vars[e.Name]; ok {
 			return v
+		}
+		if d, ok := x.topDerefs[e.Name]; ok {
+			// variable captured by the closure under contract: its current content
+			return x.loadAt(env.h(), d.ptr, d.typ)
 		}
 		if obj, ok := env.info.Uses[e].(*types.Var); ok && obj.Pkg() != nil && obj.Parent() == obj.Pkg().Scope() {
 			return env.globalLoad(obj)
@@ -533,6 +558,19 @@ func (env *specEnv) call(e *ast.CallExpr) Val {
 			x.regKey(key, "Int")
 			// ghost counters are read in the state the clause is evaluated in, even under old(): their entry
 			// values are 0 / unset and of no use
+			if env.calleeGhost != nil {
+				// a callee's contract applied at a call site: its ghost counters describe the callee's own
+				// execution, unknown to the caller
+				if t, ok := env.calleeGhost[key]; ok {
+					return Val{ts: []Term{t}}
+				}
+				t := x.freshConst("calleeghost", "Int")
+				env.calleeGhost[key] = t
+				return Val{ts: []Term{t}}
+			}
+			if env.inPrev {
+				return Val{ts: []Term{x.hget(env.prev, key)}} // prev(calls(..)): value at the start of the loop iteration
+			}
 			return Val{ts: []Term{x.hget(env.heap, key)}}
 		case "verif_calls", "verif_lastarg", "verif_lastres":
 			tv := env.info.Types[e.Args[0]]
@@ -554,6 +592,19 @@ func (env *specEnv) call(e *ast.CallExpr) Val {
 			x.regKey(key, "Int")
 			// ghost counters are read in the state the clause is evaluated in, even under old(): their entry
 			// values are 0 / unset and of no use
+			if env.calleeGhost != nil {
+				// a callee's contract applied at a call site: its ghost counters describe the callee's own
+				// execution, unknown to the caller
+				if t, ok := env.calleeGhost[key]; ok {
+					return Val{ts: []Term{t}}
+				}
+				t := x.freshConst("calleeghost", "Int")
+				env.calleeGhost[key] = t
+				return Val{ts: []Term{t}}
+			}
+			if env.inPrev {
+				return Val{ts: []Term{x.hget(env.prev, key)}} // prev(calls(..)): value at the start of the loop iteration
+			}
 			return Val{ts: []Term{x.hget(env.heap, key)}}
 		case "verif_fresh":
 			// the reference was allocated during the call (above the allocation top at entry)
